@@ -64,6 +64,20 @@ CHECKS = {
 		note='Crash points are h5py call boundaries (attribute set, dataset create, dataset write, flush, close); a kill inside H5Fclose is outside the quantifier. SIGKILL models process death, not power loss.',
 		design='DESIGN.md §4 C19',
 	),
+	'C06': dict(
+		category='exploration',
+		technique='Hypothesis-generated multi-contig genomes x file-level transformation stacks; metamorphic equality + per-contig union + definitional k-mer oracle',
+		text='Each generated genome is written as a baseline FASTA and as a transformed file (per-contig reverse complement, contig permutation, case pattern, wrap width 1..200/none, CRLF, no final newline, gzip with matching or mismatching file name, extensions); the two file signatures must be identical, equal the union of the per-contig signatures and equal the definitional signature of the contig list; contigs with a dangling prefix completed by the next contig make a k-mer across the boundary detectable.',
+		note='FASTA files are ASCII with one header per record; blank lines / lone-CR line endings are not generated. Biopython\'s FASTA parser is part of the path under test.',
+		design='DESIGN.md §4 C06',
+	),
+	'C13': dict(
+		category='exploration',
+		technique='exhaustive enumeration of task completion orders (n<=5/6) through a controlled executor + Hypothesis-generated real-pool runs and injected unreadable files; oracle: per-file single result in input order',
+		text='All n! completion orders for n <= 5 (quick) / 6 (thorough) are imposed through the public executor= argument by an executor that completes task perm[i] only after perm[i-1] was collected; plus the all-done-before-collection schedule, real thread/process pools with worker counts 1..16 and size skew, sequential mode, and a fault (missing file, directory, truncated gzip, invalid UTF-8, junk) at a drawn position. Result must be one signature per file in input order equal to the single-file result; a supplied executor is left open; an unreadable file fails the whole call.',
+		note='Completion order is owned only for the ordered/instant executors; with real pools the OS schedules (sampled with skewed file sizes).',
+		design='DESIGN.md §4 C13',
+	),
 }
 
 NOT_APPLICABLE = {}
